@@ -615,12 +615,15 @@ func checkC07(c *Ctx) {
 			}
 		}
 		side := ""
-		if _, ok := hasFloat(fas, "<", 0); ok {
-			side = "neg"
-		} else if _, ok := hasFloat(fas, ">=", 0); ok {
-			side = "pos"
-		}
 		centred := false
+		// an unsigned position compared in stretched coordinates (`signed := value*2 - 1; if signed < 0`) is the same test as
+		// `value < 0.5`: the centred-unsigned branch
+		stretched := func(t string) bool { return strings.HasSuffix(t, " * 2) - 1)") }
+		if t, ok := hasFloat(fas, "<", 0); ok {
+			side, centred = "neg", stretched(t)
+		} else if t, ok := hasFloat(fas, ">=", 0); ok {
+			side, centred = "pos", stretched(t)
+		}
 		if side == "" {
 			if _, ok := hasFloat(fas, "<", 0.5); ok {
 				side, centred = "neg", true
